@@ -113,6 +113,6 @@ LEVEL_TEXT = ('Proof: Coq theorems over the Gallina models of the styled Rectang
               'code by running extracted model and real code on the same inputs on every run.')
 LEVEL_NOTE = ('Trusted: Coq kernel, extraction (ExtrOcamlBasic), the OCaml/Rust drivers; the hand-written model is validated by '
               'differential testing, not proved equal to the Rust code; arithmetic is unbounded Z (see assumptions). "pixels() yields '
-              'no point twice" is a theorem for the rectangle and a checked search predicate for circle and ellipse.')
+              'no point twice" is a theorem for all three shapes (circle/ellipse: items are strictly row-major).')
 
 CLAIMED = True
